@@ -55,22 +55,20 @@ let () =
                 then mismatch id (here ^ " (outside domain) result differs: " ^ string_of_sx ob)
             | _, "nondet" -> count "sort_nondet_outside_domain"
             | _ -> mismatch id (here ^ " (outside domain) result kind differs: " ^ string_of_sx ob))
-       | RCycleEmpty e, "cycle" when not (wfb !st) -> count "cycles_outside_domain"
+       | RCycleEmpty _, "cycle" when is_node !st nobody ->
+           (* the empty name is FindCycle's sentinel; a graph that has it as a node is outside the domain *)
+           count "cycles_outside_domain"
        | RSort r, ("sorted" | "panic" | "nondet") ->
            count "sorts";
            (* node and edge sets of the current model state, for the oracle *)
            let nodes = List.map (fun (n, _) -> int_of_z n) !st.outs in
            let edges = List.concat_map (fun (n, m) -> List.map (fun (ch, _) -> (int_of_z n, int_of_z ch)) m) !st.outs in
            (match r, tag ob with
-            | SortUnspec, _ -> count "sort_unspec"   (* duplicate ranks: Go's answer depends on map order *)
-            | _, "nondet" -> propfail id (here ^ " Toposort answers differ between runs on equal graphs: " ^ string_of_sx ob)
-            | SortPanic, "panic" -> count "sort_panic"
-            | SortPanic, _ -> mismatch id (here ^ " model panics, implementation does not")
-            | SortFuel, _ -> mismatch id (here ^ " model out of fuel")
-            | SortOk (ml, mok), "panic" ->
-                ignore ml;
-                if mok then propfail id (here ^ " Toposort panics on a sortable graph")
-                else mismatch id (here ^ " implementation panics, model does not")
+            | SortOk _, "nondet" -> propfail id (here ^ " Toposort answers differ between runs on equal graphs: " ^ string_of_sx ob)
+            | SortOk _, "panic" -> propfail id (here ^ " Toposort panics on a graph of the domain")
+            | (SortUnspec | SortPanic | SortFuel), _ ->
+                (* impossible by C15_refines_kahn (wfb holds here) *)
+                mismatch id (here ^ " model result is not SortOk inside the domain")
             | SortOk (ml, mok), _ ->
                 let gok = bool_of_sx (List.nth (args ob) 0) in
                 let gl = ints_of_sx (List.nth (args ob) 1) in
@@ -84,14 +82,16 @@ let () =
                 (* fine: the deterministic order *)
                 else if gl <> ml then mismatch id (here ^ " order differs: impl=" ^ show_ints gl ^ " model=" ^ show_ints ml))
        | RCycleEmpty e, "cycle" ->
-           count "cycles";
+           (* C15_cycle_real / C15_cycle_found / C15_cycle_emptiness_any_order hold for every state in which
+              the empty name is not a node (no rank condition), so the oracle is applied there *)
+           count (if wfb !st then "cycles" else "cycles_dirty_state");
            let gc = ints_of_sx (List.hd (args ob)) in
            let seed = (match o with OCycle s -> s | _ -> failwith "cycle op") in
            if gc <> [] then begin
              count "cycle_nonempty";
              if not (cycle_ok !st seed (List.map z_of_int gc)) then
                propfail id (here ^ " FindCycle returned something that is not a cycle through the seed: " ^ show_ints gc)
-             else if e then propfail id (here ^ " model finds no cycle through the seed but the implementation returned a valid one (model wrong?)")
+             else if e then mismatch id (here ^ " model finds no cycle through the seed but the implementation returned a valid one (contradicts C15_cycle_emptiness_any_order: model unfaithful)")
            end else if not e then
              propfail id (here ^ " a cycle through the seed exists but FindCycle returned nothing")
        | _ -> mismatch id (here ^ " observation shape " ^ string_of_sx ob));
